@@ -156,15 +156,39 @@ def cases(tier):
                 if nested and not lifted:
                     pass
                 out.append(dict(model=model, lifted=lifted, style=style, extras=extras, nested=nested, sep=(' : ', ' = ', ':')[k % 3]))
+    for i in range(len(STRUCTURED)):
+        out.append(dict(structured=i))
     return out
 
 
-def observe(text, binary):
+STRUCTURED = []
+# (templated text, substituted text, overrides [(section, key, value)] applied to the templated file only)
+_P = '[Tabulation]\ntarget : LAMMPS\nnr : 5\ncutoff : 2.0\n\n'
+STRUCTURED.append(('variable-through-variable + override of the base variable',
+                   '[Variables]\nrho : 0.3\nbuck_OO : as.buck 1000.0 ${rho} 32.0\nr_inner : ${r_max}\nr_max : 1.5\n\n' + _P +
+                   '[Pair]\nO-O : ${buck_OO}\nU-O : as.buck 800.0 ${rho} 0.0\nU-U : >0 as.lj 0.2 2.5 >=${r_inner} as.zero\n',
+                   _P + '[Pair]\nO-O : as.buck 1000.0 0.25 32.0\nU-O : as.buck 800.0 0.25 0.0\nU-U : >0 as.lj 0.2 2.5 >=1.25 as.zero\n',
+                   [['Variables', 'rho', '0.25'], ['Variables', 'r_max', '1.25']]))
+STRUCTURED.append(('same-section reference ${O-O} in [Pair]',
+                   _P + '[Pair]\nO-O : as.buck 1000.0 0.3 32.0\nS-S : ${O-O}\nU-O : sum(${O-O}, as.lj 0.2 2.5)\n',
+                   _P + '[Pair]\nO-O : as.buck 1000.0 0.3 32.0\nS-S : as.buck 1000.0 0.3 32.0\nU-O : sum(as.buck 1000.0 0.3 32.0, as.lj 0.2 2.5)\n', []))
+STRUCTURED.append(('same-section reference shadows a variable of the same name',
+                   '[Variables]\nO-O : as.zero\ncutoff : 9.0\n\n[Tabulation]\ntarget : LAMMPS\nnr : 5\ncutoff : 2.0\n\n[Pair]\nO-O : as.buck 1000.0 0.3 32.0\nS-S : ${O-O}\nU-O : as.polynomial ${Tabulation:cutoff} 1.0\n',
+                   _P + '[Pair]\nO-O : as.buck 1000.0 0.3 32.0\nS-S : as.buck 1000.0 0.3 32.0\nU-O : as.polynomial 2.0 1.0\n', []))
+_E = '[Tabulation]\ntarget : setfl\nnr : 4\ndr : 0.5\nnrho : 4\ndrho : %s\n\n[EAM-Embed]\nAl : >=0 as.polynomial 0.1 -1.0 0.01\nCu : %s\n\n[EAM-Density]\nAl : >=0 as.exp_spline 1.1 -1.1 0.03 0 0 0 0.1\nCu : >=0 as.exp_spline 0.9 -1.0 0.02 0 0 0 0.05\n\n[Pair]\nCu-Al : >=0 as.morse 1.3 3.0 0.35\n'
+STRUCTURED.append(('same-section references in [Tabulation] (drho : ${dr}) and [EAM-Embed] (Cu : ${Al})',
+                   _E % ('${dr}', '${Al}'), _E % ('0.5', '>=0 as.polynomial 0.1 -1.0 0.01'), []))
+STRUCTURED.append(('same-section references with like-named variables present',
+                   '[Variables]\ndr : 0.002\nAl : as.zero\n\n' + _E % ('${dr}', '${Al}'), _E % ('0.5', '>=0 as.polynomial 0.1 -1.0 0.01'), []))
+
+
+def observe(text, binary, overrides=()):
     from atsim.potentials.config import ConfigParser, Configuration
     from atsim.potentials.config._common import ConfigurationException
     obs = {}
     try:
-        cp = ConfigParser(io.StringIO(text))
+        from atsim.potentials.config import ConfigParserOverrideTuple as T
+        cp = ConfigParser(io.StringIO(text), overrides=[T(*o) for o in overrides])
     except ConfigurationException as e:
         return {'parse': ('config-error', type(e).__name__, str(e)[:200])}
     for a in ('pair', 'potential_form', 'table_form', 'species', 'eam_embed', 'eam_density', 'eam_density_fs'):
@@ -189,7 +213,32 @@ def observe(text, binary):
     return obs
 
 
+def run_structured(case):
+    name, t, s_, ov = STRUCTURED[case['structured']]
+    want = observe(s_, False)
+    got = observe(t, False, ov)
+    viol = []
+    if 'parse' in want or isinstance(want.get('output'), tuple):
+        viol.append(dict(sig='harness:substituted-file-rejected', msg='%s: the substituted file is not accepted: %r' % (name, want.get('parse') or want.get('output')), detail={}))
+    else:
+        for k in want:
+            if got.get(k) != want[k]:
+                viol.append(dict(sig='differs-from-substituted-file:%s' % k, msg='%s: %s = %s ; the substituted file gives %s' % (name, k, str(got.get(k, got.get('parse')))[:300], str(want[k])[:300]),
+                                 detail={'templated': t, 'substituted': s_, 'overrides': ov}))
+                break
+    if not viol:
+        args = []
+        for o in ov:
+            args += ['-e', '%s:%s=%s' % tuple(o)]
+        a, b = R.potable(t, args=args), R.potable(s_)
+        if (a.status, type(a.exc).__name__, a.out_bytes) != (b.status, type(b.exc).__name__, b.out_bytes):
+            viol.append(dict(sig='potable-differs-from-substituted-file', msg='%s: potable %s on the templated file: status %r %s; substituted file: status %r' % (name, ' '.join(args), a.status, a.exc or a.stderr[-200:], b.status), detail={}))
+    return dict(outcome='ok:structured' if not viol else 'violation', nontrivial=True, evals=1, violations=viol)
+
+
 def run_case(case):
+    if 'structured' in case:
+        return run_structured(case)
     t, s = render(case['model'], set(case['lifted']), case['style'], case['extras'], case['nested'], case['sep'])
     binary = case['model'] == 'excel'
     want = observe(s, binary)
